@@ -10,7 +10,7 @@ Local Open Scope string_scope.
 Local Open Scope list_scope.
 
 Definition wf_cs_task (t : task) : Prop :=
-  t_method t = Checksum /\ t_sources t <> [] /\ t_prompt t = false /\ t_subguard t = None.
+  t_method t = Checksum /\ t_sources t <> [] /\ t_prompt t = false /\ t_subguard t = None /\ t_dep t = None.
 
 Definition wf_cs_proj (p : project) : Prop :=
   (forall tid t, nth_error p tid = Some t -> wf_cs_task t) /\
@@ -157,7 +157,8 @@ Section Partial.
       2:{ inversion Ec; subst. split; auto.
           destruct m; inversion Es; subst; auto.
           rewrite list_json_quiet; auto. }
-      pose proof Hwf as [Hwt Hkeys]. pose proof (Hwt _ _ Hn) as Hwt'. pose proof Hwt' as [Hm [Hsrc [Hpr Hsg]]].
+      pose proof Hwf as [Hwt Hkeys]. pose proof (Hwt _ _ Hn) as Hwt'. pose proof Hwt' as [Hm [Hsrc [Hpr [Hsg Hdep]]]].
+      cbn [fst] in Ec. rewrite (deps_fs_none _ _ _ _ Hdep) in Ec.
       set (fp := task_fp t (fs s)) in *.
       set (same := str_eq_opt (recc s t) (D fp)).
       (* a skip is justified *)
@@ -170,7 +171,8 @@ Section Partial.
         subst fp0. now rewrite Hl. }
       assert (Hrun : forall mm, (mm = Run \/ mm = Force \/ mm = Dry) -> m = mm ->
                 run_task matchb H Hx v t0 s mm tid t oc = (s', x) -> ok = true /\ InvP p s' g').
-      { intros mm Hmm -> Er. unfold run_task, guard_ok, child_trace in Er. rewrite Hsg in Er. cbn [negb] in Er.
+      { intros mm Hmm -> Er. unfold run_task in Er. rewrite (deps_fs_none _ _ _ _ Hdep), with_fs_id in Er.
+        unfold run_task_core, guard_ok, child_trace in Er. rewrite Hsg in Er. cbn [negb] in Er.
         rewrite Hnsafe, orb_false_r in Er. cbn [andb] in Er.
         rewrite Hpr in Er. cbn [andb] in Er.
         destruct Hmm as [->|[->| ->]].
